@@ -603,6 +603,20 @@ def c06(ctx):
     names_machine(ctx, "C06")
 
 
+def run_tlaps(ctx, module, what, timeout=900):
+    import shutil
+    d = ctx.scratch.sub("tlaps_" + module)
+    shutil.copy(os.path.join(vlib.SPEC, module + ".tla"), d)
+    try:
+        p = subprocess.run(["tlapm", "--threads", "8", module + ".tla"], cwd=d, capture_output=True, text=True, timeout=timeout)
+    except subprocess.TimeoutExpired:
+        raise Undecided("tlapm timed out on " + module)
+    m = re.search(r"All (\d+) obligations proved", p.stdout + p.stderr)
+    ctx.mc_jobs.append({"job": "TLAPS:" + module, "ok": bool(m), "obligations_proved": int(m.group(1)) if m else 0, "what": what})
+    if not m:
+        raise Undecided("tlapm did not prove %s:\n%s" % (module, (p.stdout + p.stderr)[-1500:]))
+
+
 def names_machine(ctx, prop):
     """RunFiles with processFilenames (spec/NamesFS.tla): model-checked, every behaviour replayed."""
     cases = ctx.gen_cases("C06N")
@@ -623,6 +637,9 @@ def names_machine(ctx, prop):
         raise Undecided("sensitivity run of NamesFS.tla with StaleArgs did not violate NeverCrashes:\n" + vlib.tlc_error_excerpt(out, 20))
     ctx.sensitivity.append({"switch": ["StaleArgs"], "expected_violation": "NeverCrashes", "tlc_reported": "NeverCrashes", "ok": True,
                             "module": "NamesFS"})
+    if ctx.tier != "quick":
+        # the same design for every tree, argument list and rename sequence, by proof
+        run_tlaps(ctx, "NamesProof", "Spec => [](every argument that is not a directory names an existing file), for every tree and every sequence of renames")
     d = ctx.scratch.sub("rp_names")
     cp, ep, rp = [os.path.join(d, x) for x in ("cases.ndjson", "expect.ndjson", "report.json")]
     with open(cp, "w") as f:
